@@ -414,7 +414,9 @@ class Check:
             "wall_s": round(wall, 2),
             "violations": nviol,
         }
-        with open(os.path.join(EVID, "%s.json" % self.pid), "w") as fp:
+        # (a replay run explores one case only: it must not overwrite the evidence of the registered check)
+        evpath = os.path.join(EVID, "replay", "%s.last-replay.json" % self.pid) if REPLAY_MODE else os.path.join(EVID, "%s.json" % self.pid)
+        with open(evpath, "w") as fp:
             json.dump(ev, fp, indent=1)
         if nviol:
             for v, pth in zip([x for x in self.violations if x][:5], replay_paths):
@@ -427,6 +429,7 @@ class Check:
 
 
 MATCHERS = {}
+REPLAY_MODE = False
 
 
 def matcher(name):
@@ -491,6 +494,8 @@ def main_wrap(fn):
     ap.add_argument("--replay", default=None)
     ap.add_argument("--seed", type=int, default=int(os.environ.get("VERIF_SEED", "1")))
     a = ap.parse_args()
+    global REPLAY_MODE
+    REPLAY_MODE = bool(a.replay)
     try:
         rc = fn(a.tier, a.seed, a.replay)
     except ToolError as e:
